@@ -9,6 +9,7 @@ import Spydr.Eblif.LemmasParse
 import Spydr.Eblif.LemmasRender
 import Spydr.Eblif.LemmasInst
 import Spydr.Eblif.LemmasLive
+import Spydr.Eblif.LemmasHdr
 import Spydr.Eblif.ModelCompose
 
 namespace Spydr.Eblif
@@ -181,20 +182,28 @@ theorem latchOrder_split : ∀ p ∈ latchOrder, splitIdx p = Except.ok (p, 0) :
   simp only [latchOrder, List.mem_cons, List.mem_nil_iff, or_false] at hp
   rcases hp with rfl | rfl | rfl | rfl | rfl <;> rfl
 
-/-- `.names n1 .. nk out` becomes an instance of the generated `logic-gate_k`, `.latch` one of
+/-- `.names n1 .. nk out` becomes an instance of the generated `logic-gate_k`; every listed net
+    (not `unconn`) is joined to the pin of the port it is zipped with (`namesInfo`: the ports of
+    `logic-gate_k` in order, i.e. `in_0 .. in_{k-1}, out` when the definition is generated by the
+    statement -- see the evaluated example; that the generated names are pairwise different needs
+    injectivity of decimal printing, which is not proved).  `.latch` becomes an instance of
     `generic-latch` whose ports are the first fields of (input, output, type, control, init-val);
     each latch field that is not `unconn` is joined to the named net bit. -/
 theorem names_latch_shape (st st' : St) (cur : String) :
     (∀ nets covers info, elabStmt st cur (Stmt.names nets covers info) = Except.ok st' →
       instKinds st' = instKinds st ++ [(cur, "logic-gate_" ++ natStr (nets.length - 1), "EBLIF.names")] ∧
-      Ext st st') ∧
+      Ext st st' ∧
+      ∀ fa ∈ namesInfo st nets, ∀ cn ci pn pi, splitIdx fa.2 = Except.ok (cn, ci) →
+        splitIdx fa.1 = Except.ok (pn, pi) → cn ≠ "unconn" →
+        Joined st' (Pin.inst st.insts.length pn pi) (cur, cn, ci) ∧ Live st' (cur, cn, ci)) ∧
     (∀ toks info, elabStmt st cur (Stmt.latch toks info) = Except.ok st' →
       instKinds st' = instKinds st ++ [(cur, "generic-latch", "EBLIF.latch")] ∧ Ext st st' ∧
       ∀ pt ∈ latchOrder.zip toks, ∀ cn ci, splitIdx pt.2 = Except.ok (cn, ci) → cn ≠ "unconn" →
         Joined st' (Pin.inst st.insts.length pt.1 0) (cur, cn, ci) ∧ Live st' (cur, cn, ci)) := by
   refine ⟨?_, ?_⟩
   · intro nets covers info h
-    exact ⟨by simpa [stmtKind] using ik_elabStmt h, ext_elabStmt (by intro hh; cases hh) h⟩
+    exact ⟨by simpa [stmtKind] using ik_elabStmt h, ext_elabStmt (by intro hh; cases hh) h,
+      elabStmt_names_joins h⟩
   · intro toks info h
     refine ⟨by simpa [stmtKind] using ik_elabStmt h, ext_elabStmt (by intro hh; cases hh) h, ?_⟩
     intro pt hpt cn ci e1 hu
@@ -224,6 +233,107 @@ example : (match elabStmts {} "t" [Stmt.latch ["d", "q"] [], Stmt.names ["a", "b
            | _ => []) =
     [("generic-latch", [("input", 1), ("output", 1), ("type", 1), ("control", 1), ("init-val", 1)]),
      ("logic-gate_2", [("in_0", 1), ("in_1", 1), ("out", 1)])] := by decide
+
+/-! ## exactness: pins are on a wire only because a statement says so -/
+
+/-- For a body without `.blackbox` elaborated from the empty state: pin `p` is on wire `k` IFF some
+    statement declares `p` for a net bit `k'` that `k` stands for (`bodyJoins`: per `.subckt/.gate`
+    the dict of formal=actual pairs, per `.latch` the fields zipped with input/output/type/control/
+    init-val, per `.names` the ports of its `logic-gate_k` zipped with the nets; `unconn` and
+    `.conn` declare nothing).  So no wire carries a pin that was not named for it. -/
+theorem pins_exact (cur : String) (body : List Stmt) (st' : St) (hb : ∀ s ∈ body, s ≠ Stmt.blackbox)
+    (h : elabStmts {} cur body = Except.ok st') :
+    ∀ p k, p ∈ st'.pins k ↔ ∃ k', (p, k') ∈ bodyJoins {} cur body ∧ st'.alias k' = k := by
+  have := exact_elabStmts body hb Exact.init h
+  simpa [Exact] using this
+
+/-- the same from any state that is exact for a join list `J` (e.g. after the header) -/
+theorem pins_exact_from (st st' : St) (J : List (Pin × Key)) (cur : String) (body : List Stmt)
+    (hb : ∀ s ∈ body, s ≠ Stmt.blackbox) (e : Exact st J) (h : elabStmts st cur body = Except.ok st') :
+    Exact st' (J ++ bodyJoins st cur body) := exact_elabStmts body hb e h
+
+/-- state-free form of the declared joins for bodies without `.names`: instance indices count
+    the instance statements -/
+theorem pins_exact_closed (cur : String) (body : List Stmt) (st' : St) (hb : ∀ s ∈ body, s ≠ Stmt.blackbox)
+    (hn : ∀ s ∈ body, noNames s = true) (h : elabStmts {} cur body = Except.ok st') :
+    ∀ p k, p ∈ st'.pins k ↔ ∃ k', (p, k') ∈ declaredJoins 0 cur body ∧ st'.alias k' = k := by
+  have e := pins_exact cur body st' hb h
+  rw [bodyJoins_closed cur body hn h] at e
+  exact e
+
+/-- no pin on two wires: if within each statement no pin is named twice (e.g. not both `A=x` and
+    `A[0]=y`), a pin is on at most one wire of the final state -/
+theorem no_pin_on_two_wires (cur : String) (body : List Stmt) (st' : St) (hb : ∀ s ∈ body, s ≠ Stmt.blackbox)
+    (hn : ∀ s ∈ body, noNames s = true) (hf : ∀ s ∈ body, ∀ n, Functional (stmtPairs n cur s))
+    (h : elabStmts {} cur body = Except.ok st') (p : Pin) (k1 k2 : Key)
+    (h1 : p ∈ st'.pins k1) (h2 : p ∈ st'.pins k2) : k1 = k2 := by
+  have e : Exact st' (declaredJoins 0 cur body) := by
+    intro p k; exact pins_exact_closed cur body st' hb hn h p k
+  exact exact_one_wire e (declaredJoins_functional cur body hf 0) h1 h2
+
+set_option maxRecDepth 20000 in
+example : (match elabStmts {} "t" [Stmt.subckt false "B" [("I", "a"), ("O", "n")] [], Stmt.conn "n" "y",
+                                   Stmt.latch ["n", "q"] []] with
+           | Except.ok s => (s.pins ("t", "n", 0), s.pins ("t", "y", 0), s.pins ("t", "a", 0), s.pins ("t", "zz", 0))
+           | _ => ([], [], [], [])) =
+    ([Pin.inst 0 "O" 0, Pin.inst 1 "input" 0], [], [Pin.inst 0 "I" 0], []) := by decide
+
+/-! ## instance data and header ports -/
+
+/-- the `.cname/.attr/.param` lines of a `.subckt/.gate` are attached to the instance it creates
+    (last `.cname`; dict semantics for repeated keys) and no later statement touches them -/
+theorem info_attached (st st' : St) (cur : String) (pre post : List Stmt) (gate : Bool) (model : String)
+    (conns : List (String × String)) (info : List InfoStmt)
+    (h : elabStmts st cur (pre ++ Stmt.subckt gate model conns info :: post) = Except.ok st') :
+    ∃ stm, elabStmts st cur pre = Except.ok stm ∧
+      (st'.insts[stm.insts.length]?).map infoOf = some (infoFold info (none, [], [])) := by
+  rw [elabStmts_append] at h
+  obtain ⟨stm, hpre, h⟩ := bind_ok h
+  refine ⟨stm, hpre, ?_⟩
+  unfold elabStmts at h
+  obtain ⟨s1, h1, h⟩ := bind_ok h
+  have hlen : s1.insts.length = stm.insts.length + 1 := by
+    have := congrArg List.length (ik_elabStmt h1); simpa [instKinds, stmtKind] using this
+  have := data_elabStmts_old post (j := stm.insts.length) (by omega) h
+  rw [elabStmt_subckt_data h1] at this
+  exact this
+
+/-- `.inputs word` / `.outputs word` of the model being read: the port exists with the right
+    direction (IN; OUT, or INOUT when the word was an input before) and more than `index` pins, and
+    its pin is on net bit (model, name, index) -/
+theorem hdr_ports (st st' : St) (cur tok pn : String) (pi : Nat) (hd : (findDef st cur).isSome)
+    (hs : splitIdx tok = Except.ok (pn, pi)) :
+    (elabInput st cur tok = Except.ok st' →
+      portDir st' cur pn = Dir.inp ∧ pi < portWidth st' cur pn ∧
+      Joined st' (Pin.top cur pn pi) (cur, pn, pi) ∧ Live st' (cur, pn, pi)) ∧
+    (elabOutput st cur tok = Except.ok st' →
+      pi < portWidth st' cur pn ∧
+      ((portDir st' cur pn = Dir.out ∧ Joined st' (Pin.top cur pn pi) (cur, pn, pi) ∧ Live st' (cur, pn, pi)) ∨
+       (portDir st' cur pn = Dir.inout ∧
+         (portDir (addPort st cur pn Dir.out 0) cur pn = Dir.inp ∨
+          portDir (addPort st cur pn Dir.out 0) cur pn = Dir.inout)))) :=
+  ⟨elabInput_port hd hs, elabOutput_port hd hs⟩
+
+/-- what the header joined stays joined through the rest of the header and through every body
+    statement that is not `.blackbox` -/
+theorem hdr_joins_persist (st s1 st' : St) (cur : String) (hdr : List Hdr) (body : List Stmt)
+    (hb : ∀ s ∈ body, s ≠ Stmt.blackbox)
+    (h1 : elabHdrs st cur hdr = Except.ok s1) (h2 : elabStmts s1 cur body = Except.ok st') : Ext st st' :=
+  Ext.trans (ext_elabHdrs hdr h1) (ext_elabStmts body hb h2)
+
+def dirCode : Dir → Nat
+  | Dir.inp => 1 | Dir.out => 2 | Dir.inout => 3 | Dir.undef => 0
+
+set_option maxRecDepth 20000 in
+example : (match readB ".model t\n.inputs a b[1]\n.outputs y a\n.subckt B I=a O=y\n.cname u1\n.attr k v\n.attr k w\n.end\n".toList with
+           | Except.ok n => (n.defs.map (fun d => (d.name, d.ports.map (fun p => (p.name, dirCode p.dir, p.width)))))
+           | _ => []) =
+    [("t", [("a", 3, 1), ("b", 1, 2), ("y", 2, 1)]), ("B", [("I", 0, 1), ("O", 0, 1)])] := by decide
+
+set_option maxRecDepth 20000 in
+example : (match readB ".model t\n.inputs a b[1]\n.outputs y a\n.subckt B I=a O=y\n.cname u1\n.attr k v\n.attr k w\n.end\n".toList with
+           | Except.ok n => n.insts.map (fun i => (i.name, i.cname, i.attrs))
+           | _ => []) = [("u1", some "u1", [("k", "w")])] := by decide
 
 /-- a model whose body is `.blackbox` ends up as a leaf primitive: no cable, no child, not in
     library `work`, and the pins of its ports are on no wire -/
